@@ -268,7 +268,7 @@ class BaseNode:
                 window=info.window,
                 skip=info.skip,
                 jitter=info.jitter,
-                name=input_name,
+                name=info.name,  # The key of `infos` is the name of the connected node, info.name is the (shadow) input name
             )
 
     @property
